@@ -78,7 +78,9 @@ def check_drop_ranges(ctx, cfg):
         if ok:
             c = dips[0]
             p = c.args[0]
-            fld = owner_range(a, db, path, info, c.mem, ("arg", 1))
+            # the range the owner claims is the one its fields describe when drop() is ENTERED (a Drop impl may move its cursors before it
+            # destroys - "shrink first" - which changes nothing about what it owes)
+            fld = owner_range(a, db, path, info, a.entry_state().mem, ("arg", 1))
             lo, hi = DROP_SPEC[tail](fld, N)
             sb = storage_base(tail, info)
             ok = p[0] == "P" and p[1] == sb and p[3] is not None and prove(("==", p[2] - lo * S), a.poly_facts(c.facts)) and prove(("==", p[3] - (hi - lo)), a.poly_facts(c.facts))
@@ -262,7 +264,35 @@ def check_by_value(ctx, cfg):
         once = len(drops_self) + len(moved) == 1
         allowed = ("<GenericArrayIter<$0,$1> as core::iter::ExactSizeIterator>::len", "<GenericArrayIter<$0,$1> as core::iter::DoubleEndedIterator>::next_back")
         ok = not raw and once and all(k in allowed or c in moved for k, c in zip(names, a.calls))
-        ctx.ob(rule, key, ok, "calls %s; raw operations: %s; self dropped exactly once on the normal path: %s" % (names, raw, once), at=b["at"], cfg=cfg)
+        det = "calls %s; raw operations: %s; self dropped exactly once on the normal path: %s" % (names, raw, once)
+        if not ok:
+            # written out instead of delegating: judged per return path of the tree-shaped body (helpers expanded, iterator invariant assumed at
+            # entry) - the entry range is exactly partitioned into slots moved out to the caller, ranges destroyed in place and the range `self`
+            # still claims, and `self` is dropped exactly once, after the last raw operation (the exclusion precedes the destruction)
+            from . import c06
+            itx = c06.It(db)
+            at = ctx.analysis_inl(cfg, key, itx.inv_facts(True), split=True, tag="inv1")
+            if at is not None and not c06.has_cycle(at) and at.returns:
+                okp, n_p, dets = True, 0, []
+                for r in at.returns:
+                    ps = c06.acyclic_paths(at, r["bb"])
+                    if ps is None:
+                        okp = False
+                        continue
+                    for pth in ps:
+                        n_p += 1
+                        st_, det_ = c06.ownership_path(at, itx, "", pth, r, byval=True, forgotten=False)
+                        ds = [d for d in at.drops if d["bb"] in pth and d["place"]["l"] == 1 and not d["place"]["p"] and not d["cleanup"]]
+                        mv = [c for c in at.calls if c.bb in pth and c.fn == "core::mem::drop" and c.targs and c.targs[0].get("def", "").split("::")[-1] == "GenericArrayIter"]
+                        rawc = [c for c in at.calls if c.bb in pth and c.fn in ("core::ptr::read", "core::ptr::drop_in_place")]
+                        last_raw = max([pth.index(c.bb) for c in rawc], default=-1)
+                        one_drop = len(ds) + len(mv) == 1 and all(pth.index(x["bb"]) >= last_raw for x in ds) and all(pth.index(c.bb) >= last_raw for c in mv)
+                        if st_ != PROVED or not one_drop:
+                            okp = False
+                            dets.append("%s; self dropped once, last: %s" % (det_, one_drop))
+                ok = okp and n_p > 0
+                det = ("%d return path(s): on each the entry range is exactly partitioned into moved-out slots, destroyed ranges and what `self` still claims when it is dropped (once, last)" % n_p) if ok else "; ".join(sorted(set(dets)))[:900]
+        ctx.ob(rule, key, ok, det, at=b["at"], cfg=cfg)
 
 
 def check(ctx):
